@@ -97,7 +97,7 @@ theorem callPure_ext (P : Platform) (n : Native) (args : List Val) (σ σ' : Sto
     · split at h
       · split at h
         · split at h
-          · cases h; exact Ext.setObj σ _ _
+          · cases h; exact Ext.setObj σ _ _ (fun hok => Ext.filter_keys_nodup _ _ (Ext.objsOk_getD hok _))
           · cases h
         · cases h
       · cases h
@@ -167,6 +167,39 @@ theorem sat_invokeNative (P : Platform) (n : Native) (vs : List Val) (line : Nat
     rw [this]; exact (h1.trans h2).trans (Ext.rte _ _ _)
 
 /-! ### lists -/
+
+/-- when an object literal is evaluated completely, the values come with the keys of the source list, in order -/
+theorem evalProps_keys (P : Platform) : ∀ (f : Nat) (ps : List (Name × Expr)) (env : Nat) (repl : Bool) (σ : Store)
+    (vs : List (Name × Val)) (σ' : Store),
+    evalProps P f ps env repl σ = .ok (vs, .none) σ' → vs.map (·.1) = ps.map (·.1) := by
+  intro f
+  induction f with
+  | zero => intro ps env repl σ vs σ' h; rw [evalProps] at h; cases h
+  | succ f ih =>
+    intro ps env repl σ vs σ' h
+    cases ps with
+    | nil => rw [evalProps] at h; cases h; rfl
+    | cons ke ps =>
+      rw [evalProps] at h
+      cases he : evalE P f ke.2 env repl σ with
+      | abn x => simp [he, Res.bind] at h
+      | ok p σ1 =>
+        obtain ⟨v, sig⟩ := p
+        simp only [he, Res.bind] at h
+        by_cases hs : sig = .none
+        · subst hs
+          simp only [ne_eq, not_true_eq_false, if_false] at h
+          cases hr : evalProps P f ps env repl σ1 with
+          | abn x => simp [hr] at h
+          | ok q σ2 =>
+            obtain ⟨vs', sig2⟩ := q
+            simp only [hr] at h
+            simp only [Res.ok.injEq, Prod.mk.injEq] at h
+            obtain ⟨⟨rfl, rfl⟩, rfl⟩ := h
+            simp [ih ps env repl σ1 vs' σ2 hr]
+        · simp only [ne_eq, hs, not_false_eq_true, if_true] at h
+          simp only [Res.ok.injEq, Prod.mk.injEq] at h
+          exact absurd h.1.2 hs
 
 theorem evalList_length (P : Platform) : ∀ (f : Nat) (es : List Expr) (env : Nat) (repl : Bool) (σ σ' : Store) (vs : List Val),
     evalList P f es env repl σ = .ok (vs, .none) σ' → vs.length = es.length := by
@@ -357,10 +390,14 @@ theorem allSat (P : Platform) : ∀ f, AllSat P f := by
       | objectLit ps =>
         rw [evalE]; apply sat_guard; intro _
         apply sat_bind (ih.p _ env repl σ)
-        intro p σ1 _
+        intro p σ1 hp
         split
         · exact Ext.refl σ1
-        · exact Ext.newObj σ1 _
+        · rename_i hsig
+          have hk := evalProps_keys P f _ env repl σ p.1 σ1 (by
+            have : p.2 = .none := by simpa using hsig
+            rw [hp]; cases p; simp_all)
+          exact Ext.newObj σ1 _ (by rw [hk]; exact Ext.effectiveProps_nodup _)
       | arrayAccess a i line =>
         rw [evalE]; apply sat_guard; intro _
         apply sat_seq (ih.e a env repl σ)
@@ -400,7 +437,7 @@ theorem allSat (P : Platform) : ∀ f, AllSat P f := by
         split
         · apply sat_seq (ih.e v env repl σ1)
           intro x σ2 _
-          exact Ext.setObj σ2 _ _
+          exact Ext.setObj σ2 _ _ (fun hok => Ext.upsert_nodup _ _ _ (Ext.objsOk_getD hok _))
         · exact Ext.rte σ1 _ _
       | call c line args =>
         rw [evalE]; apply sat_guard; intro _
